@@ -182,6 +182,31 @@ def _universe_src() -> str:
                 L += [f"    o.{B} = b"]
             L += ["    return o", f"MAKE[{name!r}] = _mk_{name}"]
             _reg(name, flav, flav, {"match": var, "empty": var if var == "allpriv" else f"{var}-init-noargs", "subset": "init-params-subset-of-fields"}.get(sig, "init-params-not-fields"))
+    # ---- two-level hierarchies: field `a` is declared by the base, field `b` by the child (`cls.__slots__` / `cls.__annotations__` name only `b`)
+    for name, flav, slots, ann, deco in (
+        ("SCH", "annotated-slots", True, True, False),
+        ("PCH", "annotated-class", False, True, False),
+        ("SOH", "slots-only", True, False, False),
+        ("VOH", "vars-only", False, False, False),
+        ("DCH", "dataclass", False, True, True),
+        ("DCSH", "dataclass-slots", True, True, True),
+    ):
+        for cname, parent, f in ((f"{name}_base", "", "a"), (name, f"({name}_base)", "b")):
+            if deco:
+                L.append("@dataclasses.dataclass(slots=True)" if slots else "@dataclasses.dataclass")
+            L.append(f"class {cname}{parent}:")
+            if slots and not deco:
+                L.append(f"    __slots__ = ({f!r},)")
+            if ann:
+                L.append(f"    {f}: typing.Any" + (" = 2" if deco and f == "b" else ""))
+            if not deco:
+                if f == "a":
+                    L += ["    def __init__(self, a):", "        self.a = a"]
+                else:
+                    L += ["    def __init__(self, a, b):", "        super().__init__(a)", "        self.b = b"]
+                    L.append(f"    def __repr__(self):\n        return '{cname}(a=%r, b=%r)' % (self.a, self.b)")
+        L.append(f"MAKE[{name!r}] = lambda a, b: {name}(a, b)")
+        _reg(name, flav, flav, "inherited-field")
     # ---- named tuples of 1, 2 and 3 fields
     L += [
         "class NT1(typing.NamedTuple):", "    a: typing.Any",
